@@ -1883,6 +1883,21 @@ def _ref_docs():
     docs["a clip-path without target"] = lambda: svg(El("path", {"d": tri(), "clip-path": "url(#nope)"}))
     docs["a fill without target"] = lambda: svg(El("path", {"d": tri(), "fill": "url(#nope)", "transform": "tR"}))
     docs["a gradient template without target"] = lambda: svg(El("path", {"d": tri(), "fill": "url(#g1)"}), defs=[El("linearGradient", {"id": "g1", H: "#nope"})])
+    docs["a gradient whose template chain runs into a cycle further down (g0 -> g1 -> g2 -> g1)"] = lambda: svg(El("path", {"d": tri(), "fill": "url(#g0)"}),
+        defs=[El("linearGradient", {"id": "g0", H: "#g1"}), El("linearGradient", {"id": "g1", H: "#g2"}), El("linearGradient", {"id": "g2", H: "#g1"}, [El("stop", {"offset": "0"})])])
+    docs["the same gradient chain with the tail last in document order"] = lambda: svg(El("path", {"d": tri(), "fill": "url(#g0)"}),
+        defs=[El("linearGradient", {"id": "g1", H: "#g2"}), El("linearGradient", {"id": "g2", H: "#g1"}, [El("stop", {"offset": "0"})]), El("linearGradient", {"id": "g0", H: "#g1"})])
+    docs["the same gradient chain reached from a transformed shape"] = lambda: svg(El("g", {"transform": "tA"}, [El("path", {"d": tri(), "fill": "url(#g0)"})]),
+        defs=[El("linearGradient", {"id": "g0", H: "#g1"}), El("linearGradient", {"id": "g1", H: "#g2"}), El("linearGradient", {"id": "g2", H: "#g1"}, [El("stop", {"offset": "0"})])])
+    docs["a <use> chain that runs into a cycle further down (a -> b -> c -> b)"] = lambda: svg(El("use", {H: "#a"}), defs=[El("g", {"id": "a"}, [El("use", {H: "#b"})]), El("g", {"id": "b"}, [El("use", {H: "#c"})]),
+                                                                                                                       El("g", {"id": "c"}, [El("path", {"d": tri()}), El("use", {H: "#b"})])])
+    docs["a clip-path chain that runs into a cycle further down (c0 -> c1 -> c2 -> c1)"] = lambda: svg(El("path", {"d": tri(), "clip-path": "url(#c0)"}),
+        defs=[El("clipPath", {"id": "c0", "clip-path": "url(#c1)"}, [El("rect", {"width": "3", "height": "3"})]), El("clipPath", {"id": "c1", "clip-path": "url(#c2)"}, [El("rect", {"width": "2", "height": "2"})]),
+              El("clipPath", {"id": "c2", "clip-path": "url(#c1)"}, [El("rect", {"width": "1", "height": "1"})])])
+    docs["a gradient template chain of length three without a cycle"] = lambda: svg(El("path", {"d": tri(), "fill": "url(#g0)"}),
+        defs=[El("linearGradient", {"id": "g0", H: "#g1"}), El("linearGradient", {"id": "g1", H: "#g2", "x2": "0.5"}), El("linearGradient", {"id": "g2"}, [El("stop", {"offset": "0"})])])
+    docs["a <use> cycle written with a trailing blank in the reference"] = lambda: svg(El("g", {"id": "a"}, [El("path", {"d": tri()}), El("use", {H: "#a "})]), El("use", {H: "#a"}))
+    docs["a <use> cycle written with a line break in the reference"] = lambda: svg(El("g", {"id": "a"}, [El("use", {H: "#b\n"})]), El("g", {"id": "b"}, [El("use", {H: " #a"}), El("path", {"d": tri()})]))
     docs["a <use> with the SVG 2 href attribute in a cycle"] = lambda: svg(El("g", {"id": "a"}, [El("path", {"d": tri()}), El("use", {"href": "#a"})]), El("use", {"href": "#a"}))
     return docs
 
